@@ -47,6 +47,29 @@ class FakeOs:
         return getattr(real_os, name)
 
 
+class FakeTime:
+    """stands in for a `time` module inside bromelia.base, should the code under test read the clock there: the harness owns it"""
+    def __init__(self):
+        import time as _t
+        self._t = _t
+        self.offset = 0.0
+
+    def monotonic(self):
+        return self._t.monotonic() + self.offset
+
+    def time(self):
+        return self._t.time() + self.offset
+
+    def perf_counter(self):
+        return self._t.perf_counter() + self.offset
+
+    def sleep(self, d):
+        self.offset += max(0.0, d)
+
+    def __getattr__(self, name):
+        return getattr(self._t, name)
+
+
 def _make(kind, errors):
     from bromelia.base import DiameterRequest, DiameterAnswer, DiameterMessage, DiameterHeader
     if kind == "req":
@@ -73,6 +96,10 @@ def run_history(case):
     fake = FakeOs(case["source"])
     saved = base.os
     base.os = fake
+    clock = FakeTime()
+    saved_time = getattr(base, "time", None)
+    if saved_time is not None:
+        base.time = clock
     DiameterRequest.hop_by_hop_identifiers.clear()
     DiameterRequest.end_to_end_identifiers.clear()
     hbh, e2e = [], []
@@ -97,8 +124,25 @@ def run_history(case):
                                     f"step {step} ({k}): hop_by_hop={h!r} end_to_end={e!r}"))
                     hbh.append(h)
                     e2e.append(e)
+                    reg1 = (len(DiameterRequest.hop_by_hop_identifiers), len(DiameterRequest.end_to_end_identifiers))
+                    if reg1[0] < reg0[0] + 1 or reg1[1] < reg0[1] + 1:
+                        # every identifier handed out so far must still be known when the next one is drawn
+                        vs.append(V("identifiers handed out earlier in the process are never forgotten", "registry-forgets/" + ("hop-by-hop" if reg1[0] < reg0[0] + 1 else "end-to-end"),
+                                    f"step {step} ({k}): registries {reg0} -> {reg1} although one more request exists"))
                     if not m.header.is_request():
                         vs.append(V("a request carries the R flag", "not-a-request", f"step {step}"))
+                elif k == "tick":
+                    # process time passes (identifiers stay taken for the life of the process, however long ago they were issued)
+                    clock.offset += op["d"]
+                elif k == "bad-req":
+                    # a construction that is refused after its identifiers were drawn: nothing already handed out is forgotten
+                    try:
+                        DiameterRequest(command_code=316, application_id=2**32)
+                    except errors:
+                        pass
+                    reg1 = (len(DiameterRequest.hop_by_hop_identifiers), len(DiameterRequest.end_to_end_identifiers))
+                    if reg1[0] < reg0[0] or reg1[1] < reg0[1]:
+                        vs.append(V("a refused construction never forgets identifiers of the process", "consumes/bad-req", f"step {step}: {reg0}->{reg1}"))
                 elif k == "conn-cycle":
                     # a connection of this process ends (disconnect / reset / reconnect) between two request creations: the
                     # process-wide registries must survive it (identifiers are unique for the process, not per connection)
@@ -145,6 +189,8 @@ def run_history(case):
                 break
     finally:
         base.os = saved
+        if saved_time is not None:
+            base.time = saved_time
         DiameterRequest.hop_by_hop_identifiers.clear()
         DiameterRequest.end_to_end_identifiers.clear()
     return vs, fake
@@ -159,7 +205,8 @@ def run_case(case):
 
 idv = st.sampled_from([0, 1, 2**31 - 1, 2**31, 2**32 - 1, 0x10000001, 7])
 op = st.one_of(
-    st.sampled_from([{"op": "req"}, {"op": "req"}, {"op": "ulr"}, {"op": "cer"}, {"op": "ccr"}, {"op": "ans"}, {"op": "conn-cycle"}]),
+    st.sampled_from([{"op": "req"}, {"op": "req"}, {"op": "ulr"}, {"op": "cer"}, {"op": "ccr"}, {"op": "ans"}, {"op": "conn-cycle"}, {"op": "bad-req"},
+                     {"op": "tick", "d": 250}, {"op": "tick", "d": 1000}, {"op": "tick", "d": 100000}]),
     st.builds(lambda k, h, e: {"op": k, "hbh": h, "e2e": e}, st.sampled_from(["req_hdr", "ans_hdr", "msg"]), idv, idv),
 )
 
